@@ -147,6 +147,35 @@ def sequential(ctx: Ctx, scratch: str):
     ctx.notes["sequential"] = {"sequences": len(seqs), "executions": n_exec, "op_histogram": dict(kinds)}
 
 
+def long_queue(ctx: Ctx, scratch: str):
+    """the contract has no capacity: a long backlog (more messages pending than any plausible internal bound) keeps every
+    message, the count and the order — implementation only (the model's queue is an unbounded list by definition)"""
+    n = 25_000 if ctx.thorough else 12_500
+    for kind in ("mem", "sqlite"):
+        app = world.make_app(kind, scratch)
+        b = app.broker
+        b.purge()
+        ids = [f"m{i}" for i in range(n)]
+        for k in range(0, n, 2500):
+            b.route_invocations(ids[k:k + 2500])
+        b.route_invocation("last")
+        cnt = b.count_invocations()
+        head = [str(b.retrieve_invocation()) for _ in range(3)]
+        cnt2 = b.count_invocations()
+        bad = None
+        if cnt != n + 1:
+            bad = f"after routing {n + 1} ids count_invocations() = {cnt}"
+        elif head != ids[:3]:
+            bad = f"after routing {n + 1} ids the first retrievals are {head}, routed first were {ids[:3]}"
+        elif cnt2 != n - 2:
+            bad = f"after routing {n + 1} ids and retrieving 3, count_invocations() = {cnt2}"
+        if bad:
+            ctx.violation(f"long-queue:{kind}", f"{kind} broker: {bad}", {"kind": "long-queue", "backend": kind, "n": n})
+        b.purge()
+    ctx.count(2, 2)
+    ctx.notes["long_queue"] = {"messages": n + 1}
+
+
 # ---------------------------------------------------------------- concurrency (validation / search)
 def conc_scenarios(ctx: Ctx):
     out = []
@@ -154,7 +183,10 @@ def conc_scenarios(ctx: Ctx):
         for n_retr in (2, 3):
             for with_router in (False, True):
                 out.append({"pre": pre, "retrievers": n_retr, "each": 1 if len(pre) < 3 else 2, "router": with_router})
-    return out if ctx.thorough else [s for s in out if s["retrievers"] == 2 or (s["pre"] == [7] and not s["router"])]
+    out = out if ctx.thorough else [s for s in out if s["retrievers"] == 2 or (s["pre"] == [7] and not s["router"])]
+    # the same with the retrievers in different processes (own broker object each; SQLite only)
+    out += [dict(s, views=2) for s in out if s["retrievers"] == 2 and (ctx.thorough or not s["router"])]
+    return out
 
 
 def run_conc(kind: str, scratch: str, sc: dict, prefix: list[int], line_level: bool):
@@ -162,8 +194,15 @@ def run_conc(kind: str, scratch: str, sc: dict, prefix: list[int], line_level: b
     for m in sc["pre"]:
         app.broker.route_invocation(f"m{m}")
     s = S.Sched()
+    brokers = [app.broker]
     if kind == "sqlite":
         S.instrument_sqlite()
+        import pynenc.broker.sqlite_broker as sb_mod
+        if hasattr(sb_mod, "threading"):
+            S.shim_threading(sb_mod)          # an in-process lock must park the actor, not block the OS thread
+        if sc.get("views", 1) > 1:
+            # retrievers of different PROCESSES: each has its own broker object on the shared database
+            brokers.append(world.make_app(kind, scratch, app_id=app.app_id).broker)
     elif line_level:
         s.trace_targets = {("mem_broker.py", "retrieve_invocation")}
     got: dict[int, list] = {}
@@ -174,7 +213,7 @@ def run_conc(kind: str, scratch: str, sc: dict, prefix: list[int], line_level: b
             for _ in range(sc["each"]):
                 if not line_level and kind == "mem":
                     s.yield_point("retrieve")
-                got[k].append(app.broker.retrieve_invocation())
+                got[k].append(brokers[k % len(brokers)].retrieve_invocation())
         return f
     for k in range(sc["retrievers"]):
         s.spawn(f"retr{k}", retriever(k))
@@ -215,6 +254,8 @@ def concurrency(ctx: Ctx, scratch: str):
     per = {}
     for kind, line in (("sqlite", False), ("mem", True)):
         for sc in conc_scenarios(ctx):
+            if sc.get("views", 1) > 1 and kind != "sqlite":
+                continue
             n = 0
             maxp = 2
             budget = (400 if ctx.thorough else 120) if kind == "sqlite" else (300 if ctx.thorough else 100)
@@ -246,6 +287,7 @@ def main(ctx: Ctx) -> int:
     try:
         sequential(ctx, scratch)
         concurrency(ctx, scratch)
+        long_queue(ctx, scratch)
     finally:
         world.rm_scratch(scratch)
     ctx.assumptions += ["message ids m1..m9 (the theorems quantify over all ids and lengths)",
@@ -261,6 +303,11 @@ def replay(ctx: Ctx, path: str) -> int:
     rp = json.load(open(path))["replay"]
     scratch = world.scratch_dir()
     try:
+        if rp["kind"] == "long-queue":
+            long_queue(ctx, scratch)
+            for v in ctx.violations:
+                print("REPRODUCED:", v["what"])
+            return 0
         if rp["kind"] == "sequence":
             app = world.make_app(rp["backend"], scratch)
             ops = [tuple(o) for o in rp["ops"]]
